@@ -167,6 +167,13 @@ def catalogue():
         ("weak_sender.upgrade",   "let w: WeakSender<{M}> = todo!(); let _ = w.upgrade();"),
     ]:
         add("unit_response", name, "none", body, "Resp1", "Unit1")
+    # ... nor wrapped ones (Box / Arc / Option / tuple around a message with a response are no messages)
+    for wname, wrap in [("box", "Box::new(Resp1)"), ("arc", "std::sync::Arc::new(Resp1)"), ("option", "Some(Resp1)"), ("tuple", "(Resp1,)")]:
+        add("unit_response", f"addr.send/{wname}", "addr", "let _ = {r}.send({M});", wrap, "Unit1")
+        add("unit_response", f"owning.send/{wname}", "owning", "let _ = {r}.send({M});", wrap, "Unit1")
+        add("unit_response", f"ctx.delayed_send/{wname}", "ctx", "{r}.delayed_send(|| {M}, D);", wrap, "Unit1")
+        add("unit_response", f"ctx.send_to_children/{wname}", "ctx", "{r}.send_to_children({M});", wrap, "Unit1")
+        add("unit_response", f"Broker::publish/{wname}", "none", "let _ = Broker::publish({M});", wrap, "Unit1")
     # R6 type-erased handles only take their own message (cannot be bypassed)
     for name, body, ill, ok in [
         ("sender.send_other",        "let _ = {r}.sender::<Unit1>().send({M});", "Unit2", "Unit1"),
